@@ -81,14 +81,6 @@ func ruleBuildersStoreAll(c *core.Ctx, rule string) {
 				return
 			}
 			o.At(fn.Site(st[0].Stmt, "entry grouped"))
-			conds := dominatingConds(g, st[0].V)
-			o.Fact("dominating conditions: %v", conds)
-			for _, cnd := range conds {
-				if cnd == "err == nil" {
-					continue // the codec could be built
-				}
-				o.Fail("an entry is grouped only when %q holds: entries for which it fails are silently dropped", cnd)
-			}
 			// skips inside the loop: every continue must be the parent-equality skip
 			var head *core.V
 			for _, h := range loopHeads(g) {
@@ -98,6 +90,75 @@ func ruleBuildersStoreAll(c *core.Ctx, rule string) {
 			}
 			if head == nil {
 				core.Undecided("loop over the input map not found")
+			}
+			// the only legitimate skip: the parent CMap already maps the code to the same value
+			// (the loop's value variable), whatever the locals are called; the test may be
+			// joined with "there is a parent" in one condition
+			valObj := core.ObjOf(info, head.Cond.Range.Value)
+			var legitSkip func(cond ast.Expr, at *core.V) bool
+			legitSkip = func(cond ast.Expr, at *core.V) bool {
+				cond = ast.Unparen(cond)
+				be, isBin := cond.(*ast.BinaryExpr)
+				if !isBin {
+					return false
+				}
+				if be.Op == token.LAND {
+					// parent != nil && <skip>
+					for _, pr := range [][2]ast.Expr{{be.X, be.Y}, {be.Y, be.X}} {
+						if nb, isN := ast.Unparen(pr[0]).(*ast.BinaryExpr); isN && nb.Op == token.NEQ && core.IsNil(info, nb.Y) && strings.HasSuffix(core.ExprStr(nb.X), ".Parent") {
+							return legitSkip(pr[1], at)
+						}
+					}
+					return false
+				}
+				if be.Op != token.EQL || valObj == nil {
+					return false
+				}
+				for _, pr := range [][2]ast.Expr{{be.X, be.Y}, {be.Y, be.X}} {
+					if core.ObjOf(info, pr[1]) != valObj {
+						continue
+					}
+					if call, isCall := ast.Unparen(pr[0]).(*ast.CallExpr); isCall && strings.HasSuffix(core.CalleeKey(info, call), ".LookupCID") {
+						return true
+					}
+					if at != nil {
+						all := true
+						cases := valueCases(g, at, pr[0], 2)
+						for _, vc := range cases {
+							call, isCall := ast.Unparen(vc.Expr).(*ast.CallExpr)
+							if !isCall || !strings.HasSuffix(core.CalleeKey(info, call), ".LookupCID") {
+								all = false
+							}
+						}
+						if all && len(cases) > 0 {
+							return true
+						}
+					}
+				}
+				return false
+			}
+			var legitNeg []string
+			for _, bv := range g.BranchVertices() {
+				if bv.Cond.Expr != nil && legitSkip(bv.Cond.Expr, bv) {
+					legitNeg = append(legitNeg, "!("+core.ExprStr(bv.Cond.Expr)+")")
+				}
+			}
+			conds := dominatingConds(g, st[0].V)
+			o.Fact("dominating conditions: %v", conds)
+			for _, cnd := range conds {
+				if cnd == "err == nil" {
+					continue // the codec could be built
+				}
+				isLegit := false
+				for _, ln := range legitNeg {
+					if strings.ReplaceAll(ln, " ", "") == strings.ReplaceAll(cnd, " ", "") {
+						isLegit = true
+					}
+				}
+				if isLegit {
+					continue // the store lies behind the legitimate skip
+				}
+				o.Fail("an entry is grouped only when %q holds: entries for which it fails are silently dropped", cnd)
 			}
 			ast.Inspect(head.Cond.Range.Body, func(n ast.Node) bool {
 				is, ok := n.(*ast.IfStmt)
@@ -110,8 +171,8 @@ func ruleBuildersStoreAll(c *core.Ctx, rule string) {
 						o.At(fn.Site(is, "skip when "+cond))
 						// the only legitimate skip: the parent CMap already maps the code to
 						// the same value (the loop's value variable), whatever the locals are called
-						okSkip := false
-						if be, isBin := ast.Unparen(is.Cond).(*ast.BinaryExpr); isBin && be.Op == token.EQL {
+						okSkip := legitSkip(is.Cond, g.VertexOf(is))
+						if be, isBin := ast.Unparen(is.Cond).(*ast.BinaryExpr); !okSkip && isBin && be.Op == token.EQL {
 							valObj := core.ObjOf(info, head.Cond.Range.Value)
 							for _, pr := range [][2]ast.Expr{{be.X, be.Y}, {be.Y, be.X}} {
 								if valObj == nil || core.ObjOf(info, pr[1]) != valObj {
@@ -676,6 +737,29 @@ func ruleCMapBounded(c *core.Ctx) {
 				continue
 			}
 			src := c.Prog.Src(fn.Decl.Body)
+			// the enumeration may live in functions of the package that All refers to (a method
+			// value of a small struct, a helper): their bodies count
+			seenF := map[*core.Func]bool{fn: true}
+			var gather func(f *core.Func, depth int)
+			gather = func(f *core.Func, depth int) {
+				ast.Inspect(f.Decl.Body, func(m ast.Node) bool {
+					id, ok := m.(*ast.Ident)
+					if !ok {
+						return true
+					}
+					if tf, isF := f.Info().Uses[id].(*types.Func); isF && tf.Pkg() == fn.Obj.Pkg() {
+						if cf := c.Prog.FuncOf(tf); cf != nil && !seenF[cf] && cf.Decl.Body != nil {
+							seenF[cf] = true
+							src += c.Prog.Src(cf.Decl.Body)
+							if depth > 0 {
+								gather(cf, depth-1)
+							}
+						}
+					}
+					return true
+				})
+			}
+			gather(fn, 1)
 			o.At(fn.Site(fn.Decl, ""))
 			n++
 			o.Require(strings.Contains(src, "MaxCMapMappings") || strings.Contains(src, "maxMappings") || strings.Contains(src, ".all("), "%s has no MaxCMapMappings bound", fn.Key)
@@ -749,6 +833,13 @@ func ruleSimpleEncode(c *core.Ctx) {
 				continue
 			}
 			o.At(fn.Site(as, "records the chosen code"))
+			if v2, isField := core.ObjOf(info, ix.Index).(*types.Var); isField && v2.IsField() {
+				// candidates kept in structs (best.code, cand.code): the field is one object for
+				// all of them, so the copies cannot be told apart here
+				n++
+				o.Unrec("%s: the chosen code is kept in a field of a struct (%s): from which candidate it was copied is not followed", c.Prog.Pos(as.Pos()), core.ExprStr(ix.Index))
+				continue
+			}
 			// every value the index can have was chosen from the loop's
 			// candidate on the 'not in use' edge of the lookup
 			var leaves []vcase
@@ -1735,6 +1826,17 @@ func ruleCIDEncodeFresh(c *core.Ctx) {
 				if other.V != nil {
 					avoid = append(avoid, other.V)
 				}
+			}
+			// with the flags assigned next to it followed (code, ok = 0, false; if !ok { code, ok = other() }),
+			// this origin's value may never be the one stored
+			var others []*core.V
+			for _, other := range origins {
+				if other.V != nil && other.V != vc.V {
+					others = append(others, other.V)
+				}
+			}
+			if !g.ReachFromTracked(vc.V, true, core.AvoidVs(others...))[store] {
+				continue
 			}
 			atoms := atomsBetween(g, vc.V, store, avoid)
 			// a test made by a helper that reports a boolean (free := !used; if free): the facts behind it
